@@ -1,8 +1,10 @@
 (* C38 — Malformed client input yields a client error and no effect.  Statements only; proofs in Ledger/ApiProofs.v, ApiEffect.v.
 
-   FULL STATEMENT (refuted by the unchanged code, see C38_refuted_v1_vars):
-     forall body, every decoder of the v1 and v2 API answers  Ok request | ClientError _  — never Panic —
-     and a request that is not accepted leaves the ledger unchanged.
+   STATEMENT: forall body, every decoder of the v1 and v2 API answers  Ok request | ClientError _  — never Panic —
+   and a request that is not accepted leaves the ledger unchanged.
+   History: on the tree before `fix: v1 Script.ToCore returns an error …` (fixes/01-v1-script-vars-panic) the v1 decoder was
+   refuted (panic on a variable that is a JSON number/boolean/array, HTTP 500); the model follows the repaired code and the
+   totality theorem now covers v1 as well.  A tree without that repair breaks the correspondence of the apidec tie.
    The theorems cover the DECODING layer (JSON tree -> request | client error | panic) and its composition with the
    controller step; chi routing, middlewares and go-libs helpers are exercised by the HTTP sweep (harness/go/vh/httpsweep.go),
    not modelled.  JSON lexing, duplicate and case-variant object keys are outside the model as well. *)
@@ -12,38 +14,24 @@ Import ListNotations.
 Open Scope string_scope.
 Open Scope Z_scope.
 
-(* partial (true) statement: every v2 decoder — transaction bodies (ajson.Unmarshal + TransactionRequest.ToCore + Postings.Validate),
-   ScriptV1.ToCore, bulk bodies (BulkElement.UnmarshalJSON for the four actions), metadata bodies — is total without panic,
-   for every JSON tree and every timestamp parser.  Structural: no bound on depth, width or magnitude. *)
-Theorem C38_total_partial : forall (parse_time : string -> option Z) (body : ajson),
+(* every decoder — v2 transaction bodies (json.Unmarshal + TransactionRequest.ToCore + Postings.Validate), ScriptV1.ToCore,
+   bulk bodies (BulkElement.UnmarshalJSON for the four actions), metadata bodies, and the v1 Script (json.Unmarshal + Script.ToCore)
+   — is total without panic, for every JSON tree and every timestamp parser.  Structural: no bound on depth, width or magnitude. *)
+Theorem C38_total : forall (parse_time : string -> option Z) (body : ajson),
   decode_v2_tx parse_time body <> Panic /\
   decode_scriptv1 body <> Panic /\
   decode_bulk parse_time body <> Panic /\
-  dec_metadata body <> Panic.
+  dec_metadata body <> Panic /\
+  decode_v1_script body <> Panic.
 Proof.
   intros pt j. repeat split.
   - exact (decode_v2_tx_no_panic pt j).
   - exact (decode_scriptv1_no_panic j).
   - exact (decode_bulk_no_panic pt j).
   - exact (dec_metadata_no_panic j).
+  - exact (decode_v1_script_no_panic j).
 Qed.
-Print Assumptions C38_total_partial.
-
-(* v1 Script.ToCore panics exactly when some variable is a JSON number, boolean or array (anything that is neither a
-   string, an object nor null): the missing hypothesis of the full statement *)
-Theorem C38_v1_panic_exactly : forall s,
-  v1_script_to_core s = Panic <-> exists kv, In kv (rr_vars s) /\ v1_bad_var (snd kv) = true.
-Proof. exact v1_script_to_core_panic_iff. Qed.
-Print Assumptions C38_v1_panic_exactly.
-
-(* refutation of the full statement: POST /{ledger}/transactions {"script":{"plain":"…","vars":{"x":1}}} — the script object
-   below — makes v1 Script.ToCore panic (replayed through the real router: HTTP 500 with an empty body) *)
-Theorem C38_refuted_v1_vars : exists body, decode_v1_script body = Panic.
-Proof.
-  exists (AJObj [("plain", AJStr "send [USD 1] (source = @world destination = @bob)"); ("vars", AJObj [("x", AJNum 1 None)])]).
-  vm_compute. reflexivity.
-Qed.
-Print Assumptions C38_refuted_v1_vars.
+Print Assumptions C38_total.
 
 (* no effect: whatever the body, an answer that is not a success leaves all seven tables unchanged (frame theorem of C07 for
    the controller's errors; a body rejected by the decoder performs no store call at all, so the whole state is untouched) *)
@@ -72,3 +60,11 @@ Example C38_example :
   handle_v2_create pt ex_feat 10 init_state (ex_body (AJStr "USD") (AJStr "1") AJNull) "" false = (init_state, Rejected EDecode) /\
   handle_v2_create pt ex_feat 10 init_state (ex_body (AJStr "USD") (AJNum 1 None) (AJNum 1700000000 None)) "" false = (init_state, Rejected EDecode).
 Proof. cbv zeta. split; [eexists; vm_compute; reflexivity|]. repeat split; vm_compute; reflexivity. Qed.
+
+(* the former refutation witness {"plain":…,"vars":{"x":1}} of v1 Script.ToCore is a client error on the repaired code; well-formed
+   variables are accepted *)
+Example C38_example_v1 :
+  decode_v1_script (AJObj [("plain", AJStr "send [USD 1] (source = @world destination = @bob)"); ("vars", AJObj [("x", AJNum 1 None)])]) = ClientError EValidation /\
+  decode_v1_script (AJObj [("plain", AJStr "p"); ("vars", AJObj [("x", AJStr "alice"); ("m", AJObj [("asset", AJStr "USD"); ("amount", AJNum 18446744073709551617 None)])])])
+    = Ok {| s_plain := "p"; s_template := ""; s_vars := [("m", "USD 18446744073709551617"); ("x", "alice")] |}.
+Proof. split; vm_compute; reflexivity. Qed.
